@@ -395,7 +395,7 @@ class C11(Prop):
             for _k in range(n):
                 evs.append(f"{rng.choice([0, 0, 1, 2, 5, rng.randint(0, 63)])},{rng.choice([1, -1, 2, -3, 100, -127, 1023, rng.randint(-1023, 1023) or 1])}")
             out.append(f"L {q} {dc} {';'.join(evs) if evs else '-'}")
-        import core
+
         out += core.gen_lines("dquant", 0, 0)
         return out
 
@@ -513,7 +513,7 @@ class C10(Prop):
     assumptions = ["rustc compiles the f32 arithmetic of idct.rs to IEEE-754 binary32 round-to-nearest-even without fused multiply-add"]
 
     def cases(self, tier, rng):
-        import core
+
         out = []
         self._ranges = []
         plan = [(k, 1, core.q(tier, 700, 10000)) for k in range(6)]
@@ -571,7 +571,7 @@ class C10(Prop):
 
     def extra(self, tier, cases, impl_out, model_out, hist):
         """Annex A statistics of the *implementation* over each generated range, against the exact reference transform."""
-        import core
+
         fails = []
         for (k, seed, start, n) in self._ranges:
             tr = core.run_cases(core.DRIVER, ["TR" + cases[start + 2 * i][1:] for i in range(n // 2)])
